@@ -41,7 +41,9 @@ LEVEL_TEXT = (
     "satisfying the stated no-conflict hypotheses (Closed under the global context): C09_upload_spec (directory upload "
     "= graft at destination[/source.name], nothing else changed, for the code /repo has now), C09_upload_file_spec, "
     "C09_make_directory_spec, C09_download_spec (exact), C09_list_recursive_exact (permutation of the subtree's entries), "
-    "C09_remove_spec (exact), C09_fuel_enough. C09_source_obligations ties the model's upload form and the path plumbing "
+    "C09_remove_spec (exact), C09_fuel_enough; C09_session_no_hidden_state: a session (any sequence of cd / mkdir / upload / "
+    "remove on one client) is the fold of the single operations over (server-side cwd, remote tree), each operation's effect "
+    "being the documented function of that pair and its arguments whatever preceded it. C09_source_obligations ties the model's upload form and the path plumbing "
     "to client.py (regenerated each run; the pre-fix form of upload computes false and any third form fails closed). "
     "C09_hist_* are historical statements about the pre-fix upload (what a revert would do). The model is hand-written; "
     "its tie to the code is a bounded-exhaustive wire-level correspondence (all tree shapes to depth 3 / fan-out 2 x "
@@ -728,6 +730,285 @@ def dots_cases():
     return out
 
 
+# ----------------------------------------------------------------------------------------------
+# sessions: SEQUENCES of tree operations on ONE client, with changes of directory between them.
+# The property quantifies over "every working directory"; a client may use the same relative path twice in one
+# session from two different directories, create-remove-create the same path, etc.  The model of a session is the
+# fold of the single-operation model over (server-side cwd, remote tree) (Model.run_seq, theorem
+# C09_session_no_hidden_state); here every step of the real client is compared with the model's single step from the
+# OBSERVED pre-state, the whole run with run_seq, and every step with the Python oracles.
+SEQ_OPS = [
+    ("cd", "w"),             # relative: / -> /w ; 550 when there is no w below the cwd
+    ("cd", "/"),
+    ("upload", "x", False),  # -> cwd/x/foo
+    ("upload", "x/y", True),  # -> cwd/x/y
+    ("mkdir", "x/y"),
+    ("remove", "x"),
+    ("upload", "", False),   # -> cwd/foo
+]
+SEQ_OPS_MORE = [("cd", "x"), ("mkdir", "/w/x"), ("remove", "/x/foo"), ("upload", "/x", False)]
+SEQ_SOURCES = [
+    {"d": {}, "e": {"f": {}}},              # directories only
+    {"a": b"A", "d": {"e": b""}},           # files on two levels, an empty file
+    b"F",                                   # a single file
+]
+
+
+def seq_cases(ctx):
+    thorough = ctx.tier == "thorough"
+    seqs = [list(t) for t in itertools.product(range(len(SEQ_OPS)), repeat=3)]
+    out = []
+    k = 0
+    # named scenarios first: same relative destination from two directories; create-remove-create; mkdir twice
+    named = [
+        [("upload", "x", False), ("cd", "w"), ("upload", "x", False)],
+        [("mkdir", "x/y"), ("cd", "w"), ("mkdir", "x/y")],
+        [("mkdir", "x/y"), ("mkdir", "x/y"), ("cd", "x"), ("mkdir", "x/y")],
+        [("upload", "x", False), ("remove", "x"), ("upload", "x", False)],
+        [("mkdir", "x/y"), ("remove", "x"), ("mkdir", "x/y"), ("cd", "x"), ("upload", "", False)],
+        [("cd", "w"), ("upload", "x/y", True), ("cd", "/"), ("upload", "x/y", True), ("remove", "/w/x"), ("cd", "w"),
+         ("upload", "x/y", True)],
+    ]
+    for ops in named:
+        for si in range(len(SEQ_SOURCES)):
+            for fb in (False, True):
+                k += 1
+                out.append(dict(session=True, ops=[list(o) for o in ops], src=si, bs=BLOCKS[k % 3], fallback=fb,
+                                sdisk=(k % 5 == 4)))
+    for idx in seqs:
+        srcs = range(len(SEQ_SOURCES)) if thorough else [k % len(SEQ_SOURCES)]
+        for si in srcs:
+            k += 1
+            out.append(dict(session=True, ops=[list(SEQ_OPS[i]) for i in idx], src=si, bs=BLOCKS[k % 3],
+                            fallback=(k // 3) % 2 == 1, sdisk=(k // 5) % 4 == 3))
+    if thorough:
+        alphabet = SEQ_OPS + SEQ_OPS_MORE
+        rng = ctx.rng
+        for _ in range(1500):
+            k += 1
+            n = rng.choice([4, 5, 6])
+            out.append(dict(session=True, ops=[list(rng.choice(alphabet)) for _ in range(n)], src=k % len(SEQ_SOURCES),
+                            bs=BLOCKS[k % 3], fallback=(k // 3) % 2 == 1, sdisk=(k // 5) % 4 == 3))
+    return out
+
+
+def run_session(case, tmp, wall_timeout=60):
+    """one client session: the operations of case['ops'] in order; the server-side cwd and the remote tree are
+    read off the SERVER after every step (the client is not asked anything between the operations)"""
+    src = SEQ_SOURCES[case["src"]]
+    remote = clone(BYSTANDERS)
+    local0 = {"foo": clone(src) if isinstance(src, dict) else src}
+    steps = []
+    obs = {"steps": steps, "final_list": "Timeout", "final_cwd": [], "final_tree": remote}
+    sroot = None
+    if case["sdisk"]:
+        sroot = tmp / "srv"
+        disk_write(sroot, remote)
+
+    async def main(net):
+        cls = ListFallbackServer if case["fallback"] else aioftp.Server
+        if case["sdisk"]:
+            server = cls([aioftp.User(base_path=sroot)], path_io_factory=aioftp.PathIO, block_size=case["bs"])
+        else:
+            server = cls(path_io_factory=aioftp.MemoryPathIO, block_size=case["bs"])
+            server.path_io_factory.state = mem_state(remote)
+        await server.start("127.0.0.1", 2121)
+        client = CountingClient(path_io_factory=functools.partial(aioftp.MemoryPathIO, cwd="/"))
+        client.path_io.fs = mem_state(local0)
+        await client.connect("127.0.0.1", 2121)
+        await client.login()
+
+        def remote_now():
+            return disk_read(sroot) if case["sdisk"] else mem_read(server.path_io_factory.state)
+
+        def cwd_now():
+            conns = list(server.connections.values())
+            d = conns[0].current_directory if conns else pathlib.PurePosixPath("/")
+            return [x for x in pathlib.PurePosixPath(d).parts if x != "/"]
+
+        for op in case["ops"]:
+            pre = (cwd_now(), remote_now())
+            exc = None
+            try:
+                if op[0] == "cd":
+                    await client.change_directory(op[1])
+                elif op[0] == "mkdir":
+                    await client.make_directory(op[1])
+                elif op[0] == "upload":
+                    await client.upload("foo", op[1], write_into=op[2], block_size=case["bs"])
+                elif op[0] == "remove":
+                    await client.remove(op[1])
+            except Runaway:
+                raise
+            except Exception as e:
+                exc = exc_name(e)
+            steps.append(dict(op=op, pre_cwd=pre[0], pre_tree=pre[1], exc=exc, post_cwd=cwd_now(), post_tree=remote_now()))
+        obs["final_cwd"], obs["final_tree"] = cwd_now(), remote_now()
+        try:
+            items = await client.list("", recursive=True)
+            obs["final_list"] = sorted((str(p), info["type"]) for p, info in items)
+        except Runaway:
+            raise
+        except Exception as e:
+            obs["final_list"] = exc_name(e)
+        try:
+            await client.quit()
+        except Runaway:
+            raise
+        except Exception as e:
+            obs["quit_exc"] = exc_name(e)
+        await server.close()
+
+    try:
+        simnet.run(main, wall_timeout=wall_timeout)
+    except (Runaway, RecursionError):
+        obs["runaway"] = True
+    finally:
+        if sroot is not None:
+            shutil.rmtree(sroot, ignore_errors=True)
+    return obs
+
+
+def enc_op(op, src):
+    if op[0] == "cd":
+        return [0, ppath(op[1])]
+    if op[0] == "mkdir":
+        return [1, ppath(op[1])]
+    if op[0] == "upload":
+        return [2, "foo", enc_tree(src), ppath(op[1]), bool(op[2])]
+    return [3, ppath(op[1])]
+
+
+def dec_state(r):
+    """decoded `res cstate` -> ('ok', cwd parts, tree) | ('fail',) | ('fuel',)"""
+    if r[0] == 0:
+        return ("ok", sx.txts(r[1][0]), dec_tree(r[1][1]))
+    return ("fail",) if r[0] == -1 else ("fuel",)
+
+
+def step_oracle(op, src, cwd, tree):
+    """independent statement of what one operation must do from (cwd, tree): ('state', cwd', tree') when the
+    documentation determines the outcome, None when it does not (file/directory conflicts, nameless file)"""
+    if op[0] == "cd":
+        target = resolve(cwd, op[1])
+        if isinstance(sub(tree, target), dict):
+            return ("state", target, tree)
+        return ("tree", None, tree)  # refused or not: the tree must not change
+    if op[0] == "mkdir":
+        target = resolve(cwd, op[1])
+        if graft_compatible(tree, target, {}):
+            return ("state", cwd, ensure_dir_oracle(tree, target))
+        return None
+    if op[0] == "upload":
+        dst2 = pathlib.PurePosixPath(op[1]) / ("" if op[2] else "foo")
+        target = resolve(cwd, str(dst2))
+        if isinstance(src, bytes) and not target:
+            return None
+        if graft_compatible(tree, target, src):
+            return ("state", cwd, graft_oracle(tree, target, src))
+        return None
+    if op[0] == "remove":
+        target = resolve(cwd, op[1])
+        if not target:
+            return None
+        if sub(tree, target) is None:
+            return ("state", cwd, tree)
+        return ("state", cwd, remove_oracle(tree, target))
+    return None
+
+
+def check_sessions(ctx, cases, tmp, use_model=True):
+    observed = []
+    for case in cases:
+        obs = run_session(case, tmp)
+        ctx.traces_impl += 1
+        observed.append((case, obs))
+    jobs = []
+    index = []
+    for ci, (case, obs) in enumerate(observed):
+        src = SEQ_SOURCES[case["src"]]
+        for si, st in enumerate(obs["steps"]):
+            jobs.append((11, [st["pre_cwd"], enc_tree(st["pre_tree"]), enc_op(st["op"], src)]))
+            index.append((ci, si))
+        jobs.append((12, [[], enc_tree(BYSTANDERS), [enc_op(op, src) for op in case["ops"]]]))
+        index.append((ci, "seq"))
+    outs = ctx.model(jobs) if use_model else [None] * len(jobs)
+    by = {ix: o for ix, o in zip(index, outs)}
+    xcheck = []
+    for ci, (case, obs) in enumerate(observed):
+        src = SEQ_SOURCES[case["src"]]
+        tag = {k: v for k, v in case.items()}
+        ctx.case(("c09-session", repr(sorted((k, repr(v)) for k, v in case.items()))))
+        ctx.count("session: " + ("disk" if case["sdisk"] else "mem") + ("+LIST" if case["fallback"] else "+MLSD"))
+        ctx.count(f"session length {len(case['ops'])}")
+        ctx.count("session source=" + ("file" if isinstance(src, bytes) else "dirs-only" if case["src"] == 0 else "tree"))
+        if obs.get("runaway") or len(obs["steps"]) != len(case["ops"]):
+            ctx.violation("a session of tree operations did not come to an end",
+                          replay_payload(case, "c09-session-runaway", source=show(src), steps_done=len(obs["steps"])))
+            continue
+        if use_model and ci % 25 == 0 and len(xcheck) < 40:
+            xcheck += [(fn, a, o) for (fn, a), o, ix in zip(jobs, outs, index) if ix[0] == ci]
+        all_ok = True
+        for si, st in enumerate(obs["steps"]):
+            op = st["op"]
+            ctx.count("session op " + op[0])
+            impl = ("ok", st["post_cwd"], st["post_tree"]) if st["exc"] is None else ("fail",)
+            all_ok = all_ok and st["exc"] is None
+            where = {**tag, "step": si, "source": show(src), "pre_cwd": "/" + "/".join(st["pre_cwd"]), "pre_tree": show(st["pre_tree"])}
+            # ---- model's single step from the observed pre-state vs the implementation
+            if use_model:
+                m = dec_state(by[(ci, si)])
+                same = m[0] == impl[0] and (m[0] != "ok" or (m[1] == impl[1] and canon(m[2]) == canon(impl[2])))
+                if not same:
+                    ctx.disagree("session-step", where,
+                                 ["/" + "/".join(m[1]), show(m[2])] if m[0] == "ok" else m[0],
+                                 ["/" + "/".join(impl[1]), show(impl[2])] if impl[0] == "ok" else st["exc"])
+            # ---- property oracle on the implementation
+            want = step_oracle(op, src, st["pre_cwd"], st["pre_tree"])
+            if want is None:
+                ctx.count("session step with conflict (no oracle)")
+                continue
+            bad = None
+            if want[0] == "tree":
+                if canon(st["post_tree"]) != canon(want[2]):
+                    bad = "the remote tree changed"
+            else:
+                if st["exc"] is not None:
+                    bad = "raised " + st["exc"]
+                elif st["post_cwd"] != want[1]:
+                    bad = "working directory is /" + "/".join(st["post_cwd"])
+                elif canon(st["post_tree"]) != canon(want[2]):
+                    bad = "remote tree differs"
+            if bad:
+                ctx.violation(
+                    f"step {si} ({op[0]}) of a session of tree operations is not the documented function of "
+                    f"(working directory, remote tree, arguments): {bad}",
+                    replay_payload(case, f"c09-session-{op[0]}-mismatch", step=si, source=show(src),
+                                   pre_cwd="/" + "/".join(st["pre_cwd"]), pre_tree=show(st["pre_tree"]),
+                                   expected=["/" + "/".join(want[1]) if want[1] is not None else None, show(want[2])],
+                                   got=["/" + "/".join(st["post_cwd"]), show(st["post_tree"]), st["exc"]]))
+        # ---- the whole session = the fold of the model
+        if use_model:
+            ms = dec_state(by[(ci, "seq")])
+            if all_ok:
+                if ms[0] != "ok" or ms[1] != obs["final_cwd"] or canon(ms[2]) != canon(obs["final_tree"]):
+                    ctx.disagree("session-fold", {**tag, "source": show(src)},
+                                 ["/" + "/".join(ms[1]), show(ms[2])] if ms[0] == "ok" else ms[0],
+                                 ["/" + "/".join(obs["final_cwd"]), show(obs["final_tree"])])
+            elif ms[0] == "ok":
+                ctx.disagree("session-fold", {**tag, "source": show(src)}, "ok",
+                             [st["exc"] for st in obs["steps"]])
+        # ---- a recursive listing of "" at the end is relative to the final working directory
+        root = sub(obs["final_tree"], obs["final_cwd"])
+        truth = sorted(("/".join(p), "dir" if d else "file") for p, d in entries_oracle(root, ())) if root is not None else None
+        if truth is not None and obs["final_list"] != truth:
+            ctx.violation("recursive list at the end of a session is not exactly the entries below the working directory",
+                          replay_payload(case, "c09-session-list-mismatch", source=show(src),
+                                         cwd="/" + "/".join(obs["final_cwd"]), tree=show(obs["final_tree"]),
+                                         got=obs["final_list"], expected=truth))
+    return xcheck
+
+
 def witness_cases():
     """the two inputs on which the pre-fix upload() misplaced the children (former finding F1; the witnesses of
     C09_hist_old_upload_child_misplaced), now ordinary corpus cases under the oracle, on both kinds of server"""
@@ -749,7 +1030,14 @@ def correspondence(ctx):
         "thorough); block size {1,4,8192}, MLSD vs LIST-fallback server, memory/disk backend on each side, fresh vs "
         "pre-existing older copy at the destination, relative vs absolute source, local cwd and local destination rotate with "
         "the case index. Each session also lists recursively, downloads and removes a path chosen from the real remote tree. "
-        "A case is non-trivial when its (shape, naming, configuration) is distinct."
+        "A case is non-trivial when its (shape, naming, configuration) is distinct. "
+        "SESSIONS: sequences of operations on ONE client (cd w | cd / | upload foo->x | upload foo->x/y write_into | "
+        "mkdir x/y | remove x | upload foo->''): six named scenarios (same relative destination from two directories, "
+        "create-remove-create, mkdir twice) x 3 sources x 2 servers, and every sequence of length 3 over the 7 operations "
+        "(343; x 3 sources in thorough, plus 1500 random sequences of length 4-6 over 11 operations), source rotating over "
+        "{directories only, tree with files, single file}, MLSD/LIST server, memory/disk backend; server-side cwd and remote "
+        "tree are read off the server after every step; each step is compared with the model's single step from the observed "
+        "pre-state and with the Python oracle, the whole run with Model.run_seq."
     )
     gen_ok, fixed = gen_flag()
     ctx.extra["upload_form_in_source"] = (
@@ -775,12 +1063,15 @@ def correspondence(ctx):
     try:
         cases = witness_cases() + make_cases(ctx) + dots_cases()
         xcheck = check_cases(ctx, cases, tmp, use_model=use_model)
+        sessions = seq_cases(ctx)
+        xcheck = xcheck[:60] + check_sessions(ctx, sessions, tmp, use_model=use_model)
+        ctx.count("sessions(sequences)", len(sessions))
         ctx.extra["correspondence_ran"] = True
         ctx.count("sessions", len(cases))
     finally:
         shutil.rmtree(tmp, ignore_errors=True)
-    ok, out = core.vm_crosscheck(EXTRACT, xcheck[:60])
-    ctx.extra["vm_compute_crosscheck"] = {"cases": len(xcheck[:60]), "agree": ok}
+    ok, out = core.vm_crosscheck(EXTRACT, xcheck[:100])
+    ctx.extra["vm_compute_crosscheck"] = {"cases": len(xcheck[:100]), "agree": ok}
     if not ok:
         ctx.obligation_broken("extraction-crosscheck", out)
 
@@ -797,13 +1088,46 @@ def search(ctx):
     try:
         cases = witness_cases() + make_cases(ctx) + dots_cases()
         check_cases(ctx, cases, tmp, use_model=False)
+        check_sessions(ctx, seq_cases(ctx), tmp, use_model=False)
         ctx.count("sessions(oracle only)", len(cases))
     finally:
         shutil.rmtree(tmp, ignore_errors=True)
 
 
+def replay_session(ctx, r):
+    case = dict(session=True, ops=[list(o) for o in r["ops"]], src=r["src"], bs=r["bs"], fallback=r["fallback"], sdisk=r["sdisk"])
+    TMP_ROOT.mkdir(parents=True, exist_ok=True)
+    tmp = TMP_ROOT / f"c09r-{os.getpid()}"
+    tmp.mkdir(exist_ok=True)
+    bad = []
+
+    class Probe:
+        traces_impl = 0
+
+        def model(self, jobs):
+            return ctx.model(jobs)
+
+        def case(self, *a, **k):
+            pass
+
+        count = sample = disagree = case
+
+        def violation(self, what, payload):
+            bad.append(payload["key"])
+            print("violated:", what, "key=", payload["key"], "step=", payload.get("step"),
+                  "expected=", payload.get("expected"), "got=", payload.get("got"))
+
+    try:
+        check_sessions(Probe(), [case], tmp, use_model=ctx.exe is not None and gen_flag()[0])
+    finally:
+        shutil.rmtree(tmp, ignore_errors=True)
+    return r.get("key") not in bad
+
+
 def replay(ctx, data):
     r = data.get("replay", {})
+    if r.get("session"):
+        return replay_session(ctx, r)
     case = {k: r[k] for k in ("scheme", "dst", "wi", "cwd", "bs", "fallback", "sdisk", "cdisk", "merge", "src_abs", "lcwd",
                               "ldst", "lwi", "pick")}
     case["dots"] = r.get("dots", False)
